@@ -285,7 +285,9 @@ fn parse_at_rule(
                 while let Ok(peek) = input.peek() {
                     match &*peek {
                         Token::Function(x) => {
-                            let xs: &str = &x;
+                            // function names are ASCII case-insensitive
+                            let lower = x.to_ascii_lowercase();
+                            let xs: &str = &lower;
                             if !matches!(xs, "layer" | "supports") {
                                 ss.add_warning(
                                     error::ParseErrorKind::UnexpectedCharacter,
@@ -294,7 +296,8 @@ fn parse_at_rule(
                                 break;
                             }
                             input.next().ok();
-                            let st = StepToken::wrap(Token::AtKeyword(x.clone()), peek.position);
+                            let st =
+                                StepToken::wrap(Token::AtKeyword(lower.clone().into()), peek.position);
                             ss.append_token(st, input, Some(peek.token.clone()));
                             match xs {
                                 "layer" => {
